@@ -101,11 +101,56 @@ func shortClosure(c *vcase.Case) {
 	}
 }
 
+// unreachMotif builds a three-step case around one way a stage output can become impossible: a
+// victim V ending in a generated way (success, error / alt output, crash while running, malformed
+// output, failed deployment, crash while starting - write-refusing connection or schema mismatch -,
+// disabled), a follower F whose wait_for needs one of V's stage outputs, a bystander that never ends,
+// and an output that needs F. Whenever the reference rules the output out the run must end promptly
+// although the bystander keeps running: every stage output that can no longer appear has to be
+// declared impossible.
+func unreachMotif(rt *rapid.T) *vcase.Case {
+	mk := func(id, op string) *vcase.Step {
+		return &vcase.Step{ID: id, Kind: "plugin", Op: op, Input: vcase.MapVal([]string{"key"}, []*vcase.Val{vcase.LitVal(vcase.StrLit(id))})}
+	}
+	v, f, b := mk("uv", "op"), mk("uf", "op"), mk("ub", "op")
+	c := &vcase.Case{Prop: "C01", Profile: "motif:stage-output-becomes-impossible", Subs: map[string]*vcase.Program{}, InputDoc: map[string]any{}}
+	c.Script.Steps = map[string]vplug.Behaviour{"uf": {Outcome: "success"}, "ub": {Outcome: "never", OnCancel: "alt"}}
+	c.Script.Deploys = map[string]vplug.DeployBehaviour{}
+	kind := rapid.SampledFrom([]string{"success", "error", "alt", "crash", "bad_output", "deploy-fail", "start-crash-badwrites", "start-crash-mismatch", "disabled"}).Draw(rt, "um.kind")
+	vb := vplug.Behaviour{Outcome: "success", DelayMs: rapid.IntRange(0, 10).Draw(rt, "um.delay")}
+	switch kind {
+	case "error", "alt", "crash", "bad_output":
+		vb.Outcome = kind
+	case "deploy-fail":
+		c.Script.Deploys["vp://uv"] = vplug.DeployBehaviour{FailRun: true}
+	case "start-crash-badwrites":
+		c.Script.Deploys["vp://uv"] = vplug.DeployBehaviour{BadWritesRun: true}
+	case "start-crash-mismatch":
+		c.Script.Deploys["vp://uv"] = vplug.DeployBehaviour{MismatchRun: true}
+	case "disabled":
+		v.Enabled = vcase.LitVal(vcase.BoolLit(false))
+	}
+	c.Script.Steps["uv"] = vb
+	type so struct{ stage, output string }
+	pick := rapid.SampledFrom([]so{{"outputs", "success"}, {"outputs", "error"}, {"outputs", "alt"}, {"starting", "started"}, {"enabling", "resolved"},
+		{"disabled", "output"}, {"crashed", "error"}, {"deploy_failed", "error"}}).Draw(rt, "um.dep")
+	f.WaitFor = vcase.ExprVal(&vcase.Expr{K: "out", Step: "uv", Stage: pick.stage, Output: pick.output})
+	c.Main = &vcase.Program{Steps: []*vcase.Step{v, f, b},
+		Outputs: []*vcase.Output{{ID: "success", Val: vcase.MapVal([]string{"r"}, []*vcase.Val{vcase.ExprVal(&vcase.Expr{K: "out", Step: "uf", Stage: "outputs", Output: "success", Path: []string{"s"}})})}}}
+	c.Labels = []string{"motif:stage-output-becomes-impossible", "unreach-motif:victim-" + kind, "unreach-motif:follower-needs-" + pick.stage + "." + pick.output}
+	return c
+}
+
 func TestC01(t *testing.T) {
 	p := liveProfile()
 	runProperty(t, "C01",
 		func(rt *rapid.T) *vcase.Case {
-			c := vcase.GenCase(rt, p, "C01")
+			var c *vcase.Case
+			if rapid.IntRange(0, 7).Draw(rt, "unreachmotif?") == 0 {
+				c = unreachMotif(rt)
+			} else {
+				c = vcase.GenCase(rt, p, "C01")
+			}
 			c.WatchdogMs = 10000
 			if os.Getenv("VERIF_C01_DEFAULT_CLOSURE") == "" {
 				shortClosure(c)
